@@ -126,7 +126,7 @@ func dirT(dir string) string { return strings.ToUpper(dir[:1]) + dir[1:] }
 
 // live reports whether h holds (in the real broker) its direction.
 func live(h *half) bool {
-	return hAttached == h.st || hParkRelease == h.st || hReleasing == h.st
+	return hParkAdmitted == h.st || hAttached == h.st || hParkRelease == h.st || hReleasing == h.st
 }
 
 // observe runs the oracles of the profile on the step just settled.
@@ -360,7 +360,7 @@ func (w *World) observe(st *Step, pre map[*half]halfSnap) {
 			w.mu.Lock()
 			s := pr.st
 			w.mu.Unlock()
-			if s < hParkRelease {
+			if s < hParkRelease && hParkAdmitted != s { /* (not when the harness itself holds it back) */
 				w.viol("C04", "peer-not-ended/"+pr.dir, fmt.Sprintf(
 					"after the release of the other direction the %s half of a%d is still %s%s",
 					pr.dir, pr.a.id, halfStateNames[s], hist()))
